@@ -73,7 +73,7 @@ theorem scan_cases' {find : Matcher} {rep : Bytes} {g : Bool} {ln : Bytes} {nb :
     {rest : Bytes} (h : scan find rep g ln nb = some (ps, rest)) :
     (find ln nb = some none ∧ ps = [] ∧ rest = ln) ∨
     ∃ so eo offs x l ps', find ln nb = some (some (so, eo, offs)) ∧ expandOpt rep ln offs = some x ∧
-      l = (if eo ≤ so then Uc.ucLen ((ln.drop eo).headD 0) else 0) ∧ l ≤ (ln.drop eo).length ∧
+      l = (if eo ≤ so then min (Uc.ucLen ((ln.drop eo).headD 0)) (ln.drop eo).length else 0) ∧ l ≤ (ln.drop eo).length ∧
       ps = ⟨ln.take so, (ln.take eo).drop so, x, (ln.drop eo).take l⟩ :: ps' ∧
       ((ps' = [] ∧ rest = (ln.drop eo).drop l) ∨
        ((ln.drop eo).drop l ≠ [] ∧ ((ln.drop eo).drop l).headD 0 ≠ 10 ∧ g = true ∧
@@ -117,8 +117,8 @@ theorem scan_pieces_valid_on (D : Bytes → Prop) (hD : SuffixClosed D) (find : 
       have hch : IsU8 ((ln.drop eo).take l) ∧ IsU8 ((ln.drop eo).drop l) := by
         by_cases he : eo ≤ so
         · rw [if_pos he] at hl
-          obtain ⟨_, h2, h3⟩ := isU8_head_char heo.2
-          rw [hl]; exact ⟨h2, h3⟩
+          obtain ⟨h1, h2, h3⟩ := isU8_head_char heo.2
+          rw [hl, Nat.min_eq_left h1]; exact ⟨h2, h3⟩
         · rw [if_neg he] at hl
           rw [hl]; exact ⟨by simpa using isU8_nil, by simpa using heo.2⟩
       have hp : PieceU8 ⟨ln.take so, (ln.take eo).drop so, x, (ln.drop eo).take l⟩ := ⟨hso.1, hxv, hch.1⟩
@@ -185,7 +185,7 @@ theorem scan_matched_valid (find : Matcher) (rep : Bytes) (hm : BoundaryMatcherF
       have hch : IsU8 ((ln.drop eo).drop l) := by
         by_cases he : eo ≤ so
         · rw [if_pos he] at hl
-          rw [hl]; exact (isU8_head_char heo.2).2.2
+          rw [hl, Nat.min_eq_left (isU8_head_char heo.2).1]; exact (isU8_head_char heo.2).2.2
         · rw [if_neg he] at hl
           rw [hl]; simpa using heo.2
       rcases hrest with ⟨rfl, rfl⟩ | ⟨_, _, _, hlt, hs⟩
